@@ -13,16 +13,12 @@ var byteAlphabet = [][]byte{
 	{0xE2}, {0x80}, {0xB9}, {0xBA}, []byte(startS), []byte(endS), []byte("×"), {0xC3}, {0xF0}, {0xFF}, {0xA9},
 	[]byte("a"), []byte("b"), []byte(" "), []byte("\n"), []byte("\n\n"), []byte("?"), []byte("%"), []byte("\""), []byte("\\"),
 	[]byte("é"), []byte("世"), []byte("😀"), []byte("\xe2\x80"), []byte("x"), []byte("0"),
+	// marker look-alikes: runes that share trailing bytes with a marker
+	[]byte("〺"), []byte("〹"), []byte("်"), []byte("္"), []byte("º"), []byte("¹"), []byte("\U00010039"), {0xE3}, {0xE1},
 }
 
 func genBytesAlpha(rt *rapid.T, label string, maxTok int) []byte {
-	n := rapid.IntRange(0, maxTok).Draw(rt, label+"_n")
-	var out []byte
-	for i := 0; i < n; i++ {
-		k := rapid.IntRange(0, len(byteAlphabet)-1).Draw(rt, label+"_t")
-		out = append(out, byteAlphabet[k]...)
-	}
-	return out
+	return genOver(rt, label, maxTok, byteAlphabet)
 }
 
 func TestC10Escape(t *testing.T) {
